@@ -185,7 +185,7 @@ def check_value_axioms(rep, M: Metrics, pre: str = "") -> int:
         for a in ("n", "t"):
             if a not in ax:
                 continue
-            tr, ops = M.translated(name)
+            tr, ops = M.translated(name, M.form_domain(name))
             ref = M.spec.REFERENCE[name](ops)
             ok = equal_forms(tr.expr, ref, ops)
             thm = M.spec.THEOREMS[a].get(name, M.spec.THEOREMS[a].get("*"))
@@ -324,7 +324,8 @@ def check_shift_wrapper(rep, M: Metrics, pre: str = "") -> None:
         raise AnalysisError("avoid_zero_division: expected one inner function")
     from .core import FunctionInfo
     fi = FunctionInfo(dec.module, None, f"{dec.name}.<locals>.{inner[0].name}", inner[0], [])
-    w = Walker(repo, fi, inline=lambda f: False)
+    # private helpers of the decorator module are part of the wrapper
+    w = Walker(repo, fi, inline=lambda f: f.module == dec.module and f.cls is None and f.name.startswith("_"))
     calls = [e for e in w.events if e.kind == "call" and e.target == ("free", dec.params[0])]
     ok = False
     detail = "the wrapper must call the metric exactly once with (x + c.EPSILON, y + c.EPSILON)"
